@@ -113,6 +113,34 @@ func runSmallVec(c enum.VecCase, a *run.Acc) {
 			}
 			return true
 		}()
+		if ok {
+			// a third fresh segment whose very FIRST request is a filtered one (the
+			// maps a filtered search needs are then built by the loading path itself)
+			ok = func() bool {
+				first, err := zx.Plugin.Open(path)
+				if err != nil {
+					fail("open-error", err.Error())
+					return false
+				}
+				defer first.Close()
+				for _, el := range subsets64(n) {
+					for _, k := range []int64{10, 1} {
+						q := vecQuery{Field: "v", Q: gridQueries[len(el)%len(gridQueries)], K: k, Except: except, ReqFilter: true, Filtered: true, Eligible: el}
+						got, err := search(first, q)
+						a.Eval(1)
+						if err != nil {
+							fail("search-error", fmt.Sprintf("filtered-first: %s: %v", q, err))
+							return false
+						}
+						if m := checkResult(exp, q, got, true); m != "" {
+							fail("filtered-first", fmt.Sprintf("segment whose first request is this filtered search: %s: %s", q, m))
+							return false
+						}
+					}
+				}
+				return true
+			}()
+		}
 		opened.Close()
 		mem.Close()
 		zx.Remove(path)
@@ -235,6 +263,8 @@ func init() {
 			for _, m := range enum.Metrics[:2] {
 				emit(VSCase{Lattice: 1200, Metric: m})
 				emit(VSCase{Lattice: 900, Metric: m})
+				emit(VSCase{Lattice: 989, Metric: m}) // 989 documents + 11 second vectors = exactly 1000 vectors
+				emit(VSCase{Lattice: 988, Metric: m}) // 999 vectors
 			}
 		},
 		Run: func(ci interface{}, a *run.Acc) {
